@@ -15,7 +15,15 @@ Late datagrams: handshake datagrams (genuine, re-signed, foreign, replayed, alte
 terminal state of the client (connect time-out fired; dropped by a bad signature; closed by the application; closed by
 the peer; DROPPED) and of the server connection (kicked by the application, challenge never answered).
 Run-level ghost (coq/Model/HsNet.v): the set of hello payloads the genuine server has built so far (this session's
-server connection + other sessions); a pinned client may only ever adopt a member of that set."""
+server connection + other sessions); a pinned client may only ever adopt a member of that set.
+Repeated connect() (reconnect_worlds, implementation only): the PUBLIC UdpClient API with its socket handling — connect()
+is called again on the same UdpClient before any answer, while the server hello of the previous attempt is in flight,
+after the handshake completed, after the connect time-out, after disconnect() (and combinations).  Every socket the
+client opens gets its own local port; a miniature of the server loop's dispatch (server.py: connections / temp pool /
+new hello, keyed by the sender's (address, port)) answers, and every answer is routed to the socket bound to the port
+it is addressed to, read or not — as a real network does.  Oracle, after every step: whenever the client reports
+CONNECTED (status or connect callback True), the server-side connection for the address of the client's CURRENT socket
+holds the same 16-byte key and the same token; after the network is quiet that connection has been promoted."""
 import struct, io, os
 from harness import lib
 from harness import connsim as S
@@ -1123,6 +1131,207 @@ def raising_connect_callback(run, rng, full, other):
             run.count("raising-connect-callback")
 
 
+def reconnect_world(run, rng, idx, plan):
+    """see the module docstring.  plan: list of moments at which connect() is called again"""
+    import types, logging
+    import mpgameserver.client as CL
+    from mpgameserver.connection import ServerClientConnection, PacketHeader, PacketType, ConnectionStatus
+    from mpgameserver.context import ServerContext
+    S.install_clock()
+    S.CLOCK.t = T * 100
+    CL.select = types.SimpleNamespace(select=lambda r, w, x, t: ([s for s in r if s.inbox], w, []))
+    ctxt = ServerContext(S.Handler(), S.root_key())
+    host = "10.7.%d.%d" % (idx // 200, idx % 200 + 1)
+    server_addr = ("10.7.0.254", 4000)
+    socks = []
+
+    def make(addr):
+        s = S.FakeSock()
+        s.port = 40000 + len(socks)
+        socks.append(s)
+        return s
+    client = CL.UdpClient(S.root_key().getPublicKey())
+    client._make_socket = make
+    cbs = []                     # (attempt, value)
+    attempts = [0]
+    delay = rng.choice([0, 1, 2, 3])          # one-way latency in frames
+    up, down = [], []            # (due frame, port, raw)
+    frame = [0]
+    log = []
+    case = {"world": idx, "plan": list(plan), "latency_frames": delay}
+
+    def connect():
+        attempts[0] += 1
+        n = attempts[0]
+        client.connect(server_addr, lambda ok, n=n: cbs.append((n, ok)))
+        client.conn.clock = S.CLOCK.time
+        log.append(["connect", frame[0], client.sock.port])
+
+    def server_frame():
+        # server.py main loop: dispatch by sender address, then update every connection and send
+        due = [x for x in up if x[0] <= frame[0]]
+        for x in due:
+            up.remove(x)
+            addr, raw = (host, x[1]), x[2]
+            try:
+                hdr = PacketHeader.from_bytes(True, raw)
+            except Exception:       # noqa
+                continue
+            try:
+                if addr in ctxt.connections:
+                    c = ctxt.connections[addr]
+                    c._recv_datagram(hdr, raw)
+                    c.incoming_messages = []
+                elif addr in ctxt.temp_connections:
+                    if hdr.pkt_type != PacketType.CHALLENGE_RESP:
+                        continue
+                    ctxt.temp_connections[addr]._recv_datagram(hdr, raw)
+                else:
+                    if hdr.pkt_type != PacketType.CLIENT_HELLO:
+                        continue
+                    c = ServerClientConnection(ctxt, addr)
+                    c.send_keep_alive_interval = ctxt.keep_alive_interval
+                    c.outgoing_timeout = ctxt.outgoing_timeout
+                    ctxt.temp_connections[addr] = c
+                    c._recv_datagram(hdr, raw)
+            except Exception:       # noqa  (the loop logs and goes on)
+                pass
+        for c in list(ctxt.connections.values()):
+            if c.status == ConnectionStatus.DISCONNECTING:
+                c.disconnect()
+            gone = c.status == ConnectionStatus.DISCONNECTED or c.timedout(ctxt.connection_timeout)
+            m = c.update()
+            if gone:
+                del ctxt.connections[c.addr]
+            if m is not None:
+                down.append((frame[0] + delay, c.addr[1], bytes(m[0].to_bytes(m[1]))))
+        for c in list(ctxt.temp_connections.values()):
+            if c.status == ConnectionStatus.DISCONNECTED or c.timedout(ctxt.temp_connection_timeout):
+                del ctxt.temp_connections[c.addr]
+            else:
+                m = c.update()
+                if m is not None:
+                    down.append((frame[0] + delay, c.addr[1], bytes(m[0].to_bytes(m[1]))))
+
+    def judge(where):
+        run.evaluations += 1
+        conn = client.conn
+        reported = [n for (n, ok) in cbs if ok]
+        is_conn = conn is not None and conn.status == ConnectionStatus.CONNECTED
+        if not is_conn:
+            return True
+        addr = (host, client.sock.port)
+        sc = ctxt.connections.get(addr) or ctxt.temp_connections.get(addr)
+        same = (sc is not None and sc.session_key_bytes is not None and bytes(sc.session_key_bytes) == bytes(conn.session_key_bytes or b"")
+                and len(conn.session_key_bytes or b"") == 16 and int(sc.token) == int(conn.token))
+        if not same:
+            run.oracle_violation("client-connected-with-a-key-or-token-the-server-does-not-hold",
+                                 dict(case, where=where, frame=frame[0], connect_calls=attempts[0], callbacks=cbs[-4:], events=log[-8:],
+                                      client_port=client.sock.port, sockets_opened=len(socks),
+                                      server_has_connection_for_that_port=sc is not None,
+                                      same_token=(sc is not None and int(sc.token) == int(conn.token)),
+                                      same_key=(sc is not None and sc.session_key_bytes is not None
+                                                and bytes(sc.session_key_bytes) == bytes(conn.session_key_bytes or b""))),
+                                 "UdpClient.connect / ClientServerConnection._recvServerHello")
+            return False
+        return True
+
+    def step(n=1):
+        for _ in range(n):
+            frame[0] += 1
+            S.CLOCK.t += 525
+            if client.conn is not None:
+                for sk in socks:
+                    sk.sent = []
+                try:
+                    client.update()
+                except Exception as e:      # noqa
+                    log.append(["update raised", frame[0], repr(e)[:60]])
+                for sk in socks:
+                    for raw in sk.sent:
+                        up.append((frame[0] + delay, sk.port, raw))
+                    sk.sent = []
+            server_frame()
+            for x in [x for x in down if x[0] <= frame[0]]:
+                down.remove(x)
+                for sk in socks:
+                    if sk.port == x[1]:
+                        sk.inbox.append(x[2])         # delivered to the socket bound to that port, read or not
+            if not judge("after frame"):
+                return False
+        return True
+
+    ok = True
+    logging.disable(logging.CRITICAL)
+    try:
+        connect()
+        for moment in plan:
+            if not ok:
+                break
+            if moment == "at once":
+                pass
+            elif moment == "hello sent":
+                ok = step(1)
+            elif moment == "answer in flight":
+                ok = step(1 + delay)                   # the server has answered; its hello has not been read yet
+            elif moment == "answer read":
+                ok = step(2 + 2 * delay)
+            elif moment == "completed":
+                ok = step(6 + 4 * delay)
+            elif moment == "timed out":
+                up[:] = []
+                down[:] = []
+                for _ in range(int(5.2 * T) // 525):
+                    frame[0] += 1
+                    S.CLOCK.t += 525
+                    try:
+                        client.update()
+                    except Exception:   # noqa
+                        pass
+                    for sk in socks:
+                        sk.sent = []                   # everything is lost while the client waits for its time-out
+                    ctxt.temp_connections.clear()      # (the server forgot the half-open attempts long ago)
+            elif moment == "disconnected":
+                ok = step(6 + 4 * delay)
+                client.disconnect()
+                log.append(["disconnect", frame[0]])
+                ok = ok and step(rng.choice([0, 1, 3]))
+            if ok:
+                connect()
+                ok = judge("right after connect()")
+        if ok:
+            ok = step(12 + 6 * delay)
+        if ok:
+            # quiet network, honest parties: the last attempt completed on both sides
+            conn = client.conn
+            addr = (host, client.sock.port)
+            run.evaluations += 1
+            if not (conn.status == ConnectionStatus.CONNECTED and addr in ctxt.connections and cbs and cbs[-1] == (attempts[0], True)):
+                run.oracle_violation("honest-handshake-after-repeated-connect-did-not-complete",
+                                     dict(case, client_status=conn.status.name, promoted=addr in ctxt.connections, callbacks=cbs[-4:],
+                                          connect_calls=attempts[0], events=log[-8:], sockets_opened=len(socks)),
+                                     "UdpClient.connect")
+                ok = False
+            else:
+                run.nt(("reconnect", tuple(plan), delay))
+    finally:
+        logging.disable(logging.NOTSET)
+    run.count("reconnect_worlds")
+    return ok
+
+
+def reconnect_worlds(run, rng, full):
+    moments = ["at once", "hello sent", "answer in flight", "answer read", "completed", "timed out", "disconnected"]
+    plans = [[m] for m in moments] + [["answer in flight", "answer in flight"], ["hello sent", "completed"], ["completed", "answer in flight"]]
+    plans += [[rng.choice(moments) for _ in range(rng.choice([2, 3]))] for _ in range(30 if full else 6)]
+    idx = 0
+    for rep in range(3 if full else 2):
+        for plan in plans:
+            idx += 1
+            if not reconnect_world(run, rng, idx, plan):
+                return
+
+
 def mask(r):
     return (r & 0x7fffffff) | 0x40000000
 
@@ -1273,5 +1482,11 @@ def run(run):
     late_datagrams(run, rng, full, other)
     raising_connect_callback(run, rng, full, other)
     attack_schedules(run, rng, 6000 if full else 100, other)
+    reconnect_worlds(run, rng, full)
+    logging.disable(logging.CRITICAL)
+    run.rules.append("repeated connect() on one UdpClient (implementation only): connect() again at once / after the hello left / with the "
+                     "answer in flight / after the answer was read / after completion / after the connect time-out / after disconnect(), "
+                     "sequences of 1-3 such calls, one-way latency 0..3 frames, every socket its own port, answers routed by (address, port); "
+                     "non-trivial = world whose last attempt completed on both sides")
     run.evaluations += run.dist.get("sessions", 0)
     logging.disable(logging.NOTSET)
